@@ -37,7 +37,7 @@ structure AuthOK (env : Prog.Env) (rp : RP) (o : RequestOptions) (a : Assertion)
   /-- A3 its owner is the response's user handle -/
   owner : a.userHandle = cred.owner
   /-- A4–A6 client data: type, challenge, origin -/
-  clientData : ∃ cd, env.answer (.clientData a.clientDataJSON) = .clientData cd ∧
+  clientData : ∃ cd, Json.clientData a.clientDataJSON = some cd ∧
     cd.type = str "webauthn.get" ∧ cd.challenge = B64.encode o.challenge ∧ OriginOK env cd.origin rp.origin
   /-- A7–A9 authenticator data: layout, RP ID hash, UP (bit 0), UV (bit 2) when required -/
   authData : ∃ ad rest, unmarshalAuthData a.authenticatorData = some (ad, rest) ∧ ad.rpIdHash = sha256 env rp.id ∧
@@ -66,7 +66,7 @@ def allowedTypes (opts : List VerifyOption) : List Bytes := (lastTypes opts).get
 structure RegPreOK (env : Prog.Env) (rp : RP) (o : CreationOptions) (c : Attestation) (opts : List VerifyOption)
     (credId keyBytes : Bytes) : Prop where
   /-- R1–R3 client data -/
-  clientData : ∃ cd, env.answer (.clientData c.clientDataJSON) = .clientData cd ∧
+  clientData : ∃ cd, Json.clientData c.clientDataJSON = some cd ∧
     cd.type = str "webauthn.create" ∧ cd.challenge = B64.encode o.challenge ∧ OriginOK env cd.origin rp.origin
   /-- R4–R13 attestation object, authenticator data, key, algorithm, statement, policy, raw id -/
   attestation : ∃ ao rest ad adRest acd k kRest res,
